@@ -537,11 +537,13 @@ class HyperscanTokenizer(Tokenizer):
             if start in byte_to_str_offset and end in byte_to_str_offset:
                 start = byte_to_str_offset[start]
                 end = byte_to_str_offset[end]
-                m = extractor.compiled_regex.match(text[start:end])
+                # match in place rather than on text[start:end], so that "^"
+                # and "$" see the real boundaries of the text
+                m = extractor.compiled_regex.match(text, start)
                 if m:
                     # hyperscan's byte-based classes can accept a hit that
                     # the unicode-aware Python regex rejects
-                    yield extractor.get_token(m, offset=start)
+                    yield extractor.get_token(m)
 
     @property
     def hyperscan_db(self):
